@@ -287,6 +287,13 @@ impl<K: CacheKey + 'static> DiskCache<K> {
         self.sync_handle = Some(handle);
     }
 
+    /// Verification access shim (compiled only by the Kani model checker): calls the private
+    /// `get_file_path`.
+    #[cfg(kani)]
+    pub fn verif_get_file_path(&self, key: &K) -> PathBuf {
+        self.get_file_path(key)
+    }
+
     /// Generate file path for a cache key
     fn get_file_path(&self, key: &K) -> PathBuf {
         let key_str = key.as_cache_key();
